@@ -128,7 +128,7 @@ def f_bad_memory(rng, d):
     h, p = rng.choice(hs)
     sibs = [x['name'] for x in p['states']]
     others = [x['name'] for x, _ in all_states(d) if x['name'] not in sibs]
-    h['memory'] = rng.choice([h['name'], 'nowhere'] + others)
+    h['memory'] = rng.choice([h['name'], 'nowhere', '', ' '] + others)
     return True
 
 
@@ -165,7 +165,7 @@ def f_bad_priority(rng, d):
     if not sts:
         return False
     s = rng.choice(sts)
-    s.setdefault('transitions', []).append({'event': 'e0', 'priority': rng.choice(['medium', 'HIGH', None, 'x1', '', 'low ']) })
+    s.setdefault('transitions', []).append({'event': 'e0', 'priority': rng.choice(['medium', 'HIGH', None, 'x1', '', 'low ', float('nan'), float('inf'), float('-inf'), 'nan', '1.5x', [1], {}]) })
     return True
 
 
@@ -236,6 +236,7 @@ def main(tier, seed):
     outcome_mix = {}
     text_checked = 0
     lenient_first = 0
+    unmodelled_faulty = 0
     while len(cases) < n:
         sc = genchart.valid_chart(rng, genchart.Profile(max_states=8, p_history=0.4, p_final=0.25, p_contract=0.2,
                                                         n_trans=(2, 7)))
@@ -260,6 +261,16 @@ def main(tier, seed):
                 if not faults:
                     continue
             if not iofam.modellable(d):
+                # outside what IO.v models (e.g. NaN / infinite numbers): no comparison with the model, but a document with a
+                # listed fault must still be rejected with StatechartError by the real importer
+                if faults and faults != ['benign']:
+                    impl0 = iofam.impl_import_dict(d)
+                    unmodelled_faulty += 1
+                    if impl0[0] != 'sce':
+                        v.violation(dict(property=PROP, clause='a document with the fault(s) %s is not rejected with StatechartError '
+                                                                '(%s) (C12_reject_*)' % (faults, impl0[0] if impl0[0] != 'other' else impl0),
+                                         document=repr(d)[:3000]), tag='unmod%d' % unmodelled_faulty)
+                        n_viol += 1
                 continue
             faulty = bool(faults) and faults != ['benign']
             impl = iofam.impl_import_dict(d)
@@ -388,7 +399,7 @@ def main(tier, seed):
              'positions, benign variations (ignored keys, coercible scalars, empty lists) and unmodified documents; '
              'non-trivial = a fault or a variation was injected; distinct = distinct case terms',
         traces_validated_against_impl=len(cases), fault_mix=fault_mix, outcome_mix=outcome_mix,
-        text_path_compared=text_checked, lenient_load_first=lenient_first, mismatch_clauses=clauses,
+        text_path_compared=text_checked, lenient_load_first=lenient_first, faulty_documents_outside_the_model=unmodelled_faulty, mismatch_clauses=clauses,
         samples=[dict(faults=c[1]['faults'], implementation=c[1]['implementation'], yaml=(c[1]['yaml'] or '')[:400])
                  for c in cases[:40] if c[1]['faults'] and c[1]['faults'] != ['benign']][:2],
         source_blobs=repo_blob_ids(['sismic/io/yaml.py', 'sismic/io/datadict.py', 'sismic/model/statechart.py']),
